@@ -413,6 +413,18 @@ def gen_neg(full):
     yield Case('NEG', Program([R('T', x, body=(Lit('B', x), Not(*b1), Not(*b2)))]), ['T'])
     yield Case('NEG', Program([R('T', x, body=(Lit('B', x), Not(Not(*b1), Not(*b2))))]), ['T'])
     yield Case('NEG', Program([R('T', x, body=(Lit('B', x), ('or', ((Not(*b1),), (Not(*b2),)))))]), ['T'])
+  # an injected predicate whose nested negation has a local variable named like a variable of the caller
+  for jbody in [
+      (Lit('B', x), ('imp', (Lit('B', x),), (Lit('A', x, y),))),
+      (Lit('B', x), Not(Lit('B', x), Not(Lit('A', x, y)))),
+      (Lit('B', x), Not(Cmp('>', x, N(0)), Not(Lit('A', y, x), Cmp('>=', y, x)))),
+      (Lit('B', x), Eq(s_, Comb('Count', N(1), (Lit('B', x), Not(Lit('A', x, y))))), Cmp('>=', s_, N(0))),
+  ]:
+    J = R('J', x, body=jbody)
+    yield Case('NEG', Program([J, R('T', x, y, body=(Lit('J', x), Lit('A', y, x)))]), ['T', 'J'])
+    yield Case('NEG', Program([J, R('T', y, x, body=(Lit('A', y, x), Lit('J', x)))]), ['T'])
+    yield Case('NEG', Program([J, R('T', y, body=(Lit('B', y), Lit('J', y), Lit('A', y, x)))]), ['T'])
+    yield Case('NEG', Program([J, R('T', x, s_, body=(Lit('J', x), Eq(s_, Comb('Sum', y, (Lit('A', x, y),)))))]), ['T'])
   # negated intermediate predicate (concrete) and negated injectible
   P = R('P', x, body=(Lit('A', x, y), Lit('B', y)))
   yield Case('NEG', Program([P, R('T', x, body=(Lit('B', x), Not(Lit('P', x))))]), ['T'])
